@@ -194,6 +194,12 @@ func runC06(cfg Config, r *Result) {
 	if rtm, err := StartModel("fmtparse"); err == nil {
 		defer rtm.Close()
 		c.rt = &rtCtx{model: rtm, max: cfg.N(12000, 150000)}
+		if lm, err := StartModel("fmtlex"); err == nil {
+			defer lm.Close()
+			c.rt.lex = lm
+		} else {
+			r.Violate(Violation{Kind: "correspondence", Key: "model-start", Detail: "fmtlex: " + err.Error()})
+		}
 		defer rtNote(r, c.rt)
 	} else {
 		r.Violate(Violation{Kind: "correspondence", Key: "model-start", Detail: "fmtparse: " + err.Error()})
